@@ -62,17 +62,8 @@ def lane_setup():
     ns = rt.Namespace.get(sym.symbol(NS))
     _st["ns"] = ns
     _run["varhash"] = {"*a*": 1, "*b*": 2, "*c*": 3, "nd": 4}
-    vars_ = {}
-    for name in ("*a*", "*b*", "*c*"):
-        v = SeededVar(ns, sym.symbol(name), dynamic=True)
-        ns.intern(sym.symbol(name), v)
-        v.bind_root(0)
-        vars_[name] = v
-    nd = SeededVar(ns, sym.symbol("nd"), dynamic=False)
-    ns.intern(sym.symbol("nd"), nd)
-    nd.bind_root(0)
-    vars_["nd"] = nd
-    _st["vars"] = vars_
+    _st["SeededVar"] = SeededVar
+    _fresh_vars()
     for name, fn in (("probe!", _probe), ("pstart!", _pstart), ("caught!", _caught), ("root!", _root),
                      ("run-thread!", _run_thread), ("py-bindings!", _py_bindings)):
         rt.Var.intern(ns, sym.symbol(name), fn)
@@ -501,19 +492,25 @@ def _count_faults(nodes, acc):
             _count_faults(n[2], acc)
 
 
+def _fresh_vars():
+    sym, ns, SeededVar = _st["sym"], _st["ns"], _st["SeededVar"]
+    vars_ = {}
+    for name in ("*a*", "*b*", "*c*", "nd"):
+        v = SeededVar(ns, sym.symbol(name), dynamic=name != "nd")
+        ns.intern(sym.symbol(name), v, force=True)
+        v.bind_root(0)
+        vars_[name] = v
+    _st["vars"] = vars_
+    return vars_
+
+
 def run(workload, k):
     rt = _st["rt"]
-    vars_ = _st["vars"]
     _run.update(k=k, obs=[], caught=[], roots=[], nthreads=0, varhash=workload["varhash"])
-    # fresh per-run state on the persistent Vars (an aborted run may leave sim locks owned)
-    for name, v in vars_.items():
-        v._lock = P.SimRLock()
-        v._root = 0
-        v._is_bound = True
-        v._validator = None
-        if name != "nd":
-            v._tl = rt._VarBindings()
-    vars_["*b*"]._validator = lambda x: x != M.REJECT
+    # every run gets Vars nobody has ever bound, built by the real constructor (a Var's first push is a state of its
+    # own - seeded change C11-e made the thread-local stack lazy); the compiled helpers find them by name
+    vars_ = _fresh_vars()
+    vars_["*b*"].set_validator(lambda x: x != M.REJECT)
     fns = []
     counts = {}
     interp = Interp()
